@@ -207,6 +207,34 @@ def run_c02(tier, seed):
         validated += 1
         if len(sizes) > 1:
             distinct.add((G.hx(data), tuple(sizes)))
+    # the same through the server's connection loop (the parser as the server drives it: its reader, its deadlines): requests
+    # delivered in arbitrary chunks, with the client pausing between chunks, are answered one by one with the right arguments
+    import connlib as CL, cmdgen as CG
+    ccases = []
+    for i in range(150 if tier == "quick" else 2000):
+        reqs = [("ECHO", [CG.g_str(rng)]) for _ in range(rng.randint(1, 4))]
+        data = b"".join(CG.request_bytes(n_, a_) for n_, a_ in reqs)
+        if len(data) > 20000:
+            continue
+        cuts = sorted(set(rng.randrange(1, len(data)) for _ in range(rng.randint(1, 5))))
+        parts = [data[a:b] for a, b in zip([0] + cuts, cuts + [len(data)])]
+        # 'f' waits until the server asks for more input before the next chunk is sent: the client pauses at every cut
+        steps = [(0, "f" + CL.hx(p_)) for p_ in parts] + [(0, "e")]
+        ccases.append(dict(line=CL.mkcase(steps, default="ms(4f4b)", trace=False), expect=[b"$%d\r\n" % len(a_[0]) + a_[0] + b"\r\n" for _, a_ in reqs], cuts=cuts, n=len(data)))
+    cimpl, cmodel, cfail = vlib.run_pair("conn", [], [c["line"] for c in ccases], shards=8)
+    attribute_failures(chk, "conn", [c["line"] for c in ccases], cfail, lambda l: l[:200])
+    conn_ok = 0
+    for c, a in zip(ccases, cimpl):
+        if a is None:
+            continue
+        obs = CL.Obs(a)
+        got = [w[1] for w in CL.writes_of(obs.conns[0][1])]
+        if obs.conns[0][0] != "ret" or got != c["expect"]:
+            chk.violation("chunked-requests", "a pipeline of %d ECHO requests (%d bytes) sent in chunks cut at %s with the client pausing at each cut was answered %s instead of %s (%s)" % (
+                len(c["expect"]), c["n"], c["cuts"], [g[:40] for g in got], [e[:40] for e in c["expect"]], obs.conns[0][0]), dict(case=c["line"], cuts=c["cuts"]))
+            continue
+        conn_ok += 1
+    chk.coverage["chunked_pipelines_through_the_connection_loop"] = conn_ok
     if broken and not chk.violations:
         chk.violation("proof-broken", broken, dict(broken=broken, theorem="GRP.C02"), True)
     chk.coverage.update(
